@@ -174,4 +174,8 @@ def rand32(rng):
         return 1 << rng.randrange(32)
     if k < 0.8:
         return rng.getrandbits(rng.randrange(1, 33))
+    if k < 0.88:
+        # a corner value in the bottom byte under arbitrary upper bits (register-specified shift amounts are Rs<7:0>, byte
+        # lanes, 8-bit fields): bit 8 alone, all upper bits, or random ones over a zero / boundary byte
+        return (rng.choice([1, 1, 0xFFFFFF, rng.getrandbits(24)]) << 8) | rng.choice([0, 0, 0, 1, 31, 32, 33, 0x7F, 0x80, 0xFF])
     return rng.getrandbits(32)
